@@ -311,6 +311,11 @@ func VerifyFunc(p *Program, fn *ssa.Function, cfg Config, opt Options) (res *Uni
 			}
 			u.curFn = u.curFn[:len(u.curFn)-1]
 		}
+		if ct != nil && opt.CheckPosts && len(p.ElemInv) > 0 {
+			u.curFn = append(u.curFn, fn)
+			u.checkElemInvs(st2, fn, r)
+			u.curFn = u.curFn[:len(u.curFn)-1]
+		}
 		if opt.ZeroRecv {
 			// verification of a zero value never reports success
 			switch fn.Name() {
@@ -550,7 +555,22 @@ func (u *Unit) runMethodsOn(st *State, recv Val, t types.Type, tag string) {
 		}
 		u.MethodRuns[FuncName(m)+" "+tag]++
 		u.S.Push()
+		if pv, ok := rv.(PtrV); ok && m.Synthetic != "" {
+			// A compiler-generated wrapper (value method called through a
+			// pointer, method promoted from an embedded field): with a nil
+			// pointer Go itself panics before any code of the library runs;
+			// there is no value to touch.
+			u.assume(Not(pv.Nil))
+			if !u.pathFeasible() {
+				u.S.Pop()
+				continue
+			}
+		}
+		if sig.Params().Len() == 0 {
+			u.curMethod = m.Name()
+		}
 		u.runFunc(st2, m, args, nil, 1, func(*State, Val) {})
+		u.curMethod = ""
 		u.S.Pop()
 	}
 }
@@ -599,9 +619,144 @@ func (u *Unit) methodsAfter(st *State, fn *ssa.Function, r Val, opt Options) {
 			u.runMethodsOn(st2, vals[0], t0, "after success")
 		}
 		if !success && opt.MethodsOnError {
+			// one representative per shape of the partial value (which
+			// pointers / slices / interfaces are nil, constant lengths)
+			key := u.shapeKey(st2, vals[0], 0)
+			if u.shapesSeen == nil {
+				u.shapesSeen = map[string]bool{}
+			}
+			u.ErrorReturns++
+			if u.shapesSeen[key] {
+				return
+			}
+			u.shapesSeen[key] = true
 			u.argFreeOnly = true
 			u.runMethodsOn(st2, vals[0], t0, "after error")
 			u.argFreeOnly = false
 		}
 	})
+}
+
+// shapeKey: which pointers, slices and interfaces of v are nil and which
+// lengths are constants (the part of a partial value that decides whether an
+// accessor dereferences nil or indexes out of range).
+func (u *Unit) shapeKey(st *State, v Val, depth int) string {
+	if depth > 5 {
+		return "…"
+	}
+	lit := func(t *Term) string {
+		switch {
+		case t == nil:
+			return "-"
+		case t.IsInt:
+			return t.I.String()
+		case t.IsBool:
+			if t.B {
+				return "T"
+			}
+			return "F"
+		}
+		return "?"
+	}
+	switch x := v.(type) {
+	case nil:
+		return "nil"
+	case *Term:
+		return lit(x)
+	case SliceV:
+		if x.Blk.IsInt && x.Blk.I.Sign() == 0 {
+			return "s:nil"
+		}
+		r := "s" + lit(x.Len)
+		if x.List != nil && x.Len.IsInt {
+			n := int(x.Len.I.Int64())
+			for i := 0; i < n && i < 4; i++ {
+				r += "," + u.shapeKey(st, u.loadCell(st, u.listCell(x.List, x.LOff+i)), depth+1)
+			}
+		}
+		return r
+	case StrV:
+		return "str" + lit(x.Len)
+	case ArrV, ArrRefV, ArrTupleV:
+		return "arr"
+	case StructV:
+		var ps []string
+		for _, e := range x.F {
+			ps = append(ps, u.shapeKey(st, e, depth+1))
+		}
+		return "{" + strings.Join(ps, " ") + "}"
+	case TupleV:
+		var ps []string
+		for _, e := range x.E {
+			ps = append(ps, u.shapeKey(st, e, depth+1))
+		}
+		return "(" + strings.Join(ps, " ") + ")"
+	case PtrV:
+		if x.Nil.IsBool && x.Nil.B {
+			return "p:nil"
+		}
+		if x.Cell == nil || x.Blk != nil {
+			return "p" + lit(x.Nil)
+		}
+		return "p" + lit(x.Nil) + "&" + u.shapeKey(st, u.loadPath(st, x), depth+1)
+	case IfaceV:
+		d := ""
+		if x.Dyn != nil {
+			d = x.Dyn.String()
+		}
+		return "i" + lit(x.Nil) + d
+	case MapV:
+		return "map"
+	}
+	return fmt.Sprintf("%T", v)
+}
+
+// checkElemInvs: every list a function under contract returns (directly or
+// inside its results) whose element type has a declared element invariant
+// satisfies it.  Lists that came from outside (inputs, contract calls) already
+// satisfy it by assumption A-ELEM.
+func (u *Unit) checkElemInvs(st *State, fn *ssa.Function, r Val) {
+	seen := map[int]bool{}
+	var walk func(v Val, depth int)
+	walk = func(v Val, depth int) {
+		if depth > 8 {
+			return
+		}
+		switch x := v.(type) {
+		case SliceV:
+			if x.List == nil || seen[x.List.ID] {
+				return
+			}
+			seen[x.List.ID] = true
+			inv := u.P.ElemInv[types.TypeString(x.Elem, nil)]
+			if inv == nil || x.List.Sym {
+				return
+			}
+			name := fmt.Sprintf("%s#elem:%s holds for every element of the returned list", FuncName(fn), inv.Name())
+			if !x.Len.IsInt {
+				u.check(st, name, "elem", Eq(x.Len, IntLit(0)), "element invariant of a returned list of symbolic length")
+				return
+			}
+			for i := 0; i < int(x.Len.I.Int64()) && i < 64; i++ {
+				ev := u.loadCell(st, u.listCell(x.List, x.LOff+i))
+				u.goalMode++
+				t := u.evalPure(st, inv, []Val{ev}, nil).(*Term)
+				u.goalMode--
+				u.check(st, name, "elem", t, inv.Name())
+			}
+		case StructV:
+			for _, e := range x.F {
+				walk(e, depth+1)
+			}
+		case TupleV:
+			for _, e := range x.E {
+				walk(e, depth+1)
+			}
+		case PtrV:
+			if x.Cell != nil && x.Blk == nil && !(x.Nil.IsBool && x.Nil.B) {
+				walk(u.loadPath(st, x), depth+1)
+			}
+		}
+	}
+	walk(r, 0)
 }
